@@ -592,7 +592,12 @@ func years(y float64) int { return int(y * 365.25) }
 
 func genDoc(t *rapid.T) *doc {
 	d := &doc{}
-	anchor := ref.CivilDay(rapid.IntRange(1650, 1800).Draw(t, "anchor"), 6, 15)
+	// (any century of the past: a fifth of the documents are set where years have one to three digits)
+	anchorYear := rapid.IntRange(1650, 1800).Draw(t, "anchor")
+	if rapid.IntRange(0, 4).Draw(t, "early") == 0 {
+		anchorYear = rapid.SampledFrom([]int{75, 95, 110, 180, 420, 990, 1010}).Draw(t, "earlyAnchor")
+	}
+	anchor := ref.CivilDay(anchorYear, 6, 15)
 	n := rapid.IntRange(1, 7).Draw(t, "people")
 	for i := 0; i < n; i++ {
 		d.People = append(d.People, &person{ID: fmt.Sprintf("I%d", i+1)})
@@ -782,7 +787,7 @@ func seq(n int) []int {
 
 func TestCheckWarnings(t *testing.T) {
 	s := harness.NewSub("warnings-sound-and-complete",
-		"random family graphs (1..7 people, 0..3 families, distinct roles inside a family, a sibling pair shares at most one family) with exact D Mon Y dates between about 1600 and 1975: sibling gaps from {0,1,2,3,30,200,269,270,280,281,400,1000} days, children born -400/-1/0/+1 days or 15-35 years relative to a parent, deaths at -10 days .. 130 years incl. 99.9/100.1, marriages at 10/15.9/16.1/25/60/99.9/100.1/104 years, baptisms/burials around birth/death, 0-3 SEX lines, unparsable dates in RESI/ENGA events; the multiset of (warning kind, people, dates) computed from the facts must equal the projection of Document.Warnings(), again on a second call after the views and similarities of the document were read, and before and after reordering records and children; for a quarter of the documents 1..2 edits through the public API follow (a person deleted, replaced by another under the same pointer, added as a child, a birth date changed) and the report must then be that of the same text decoded from nothing; non-trivial = at least one warranted warning and at least one candidate of another kind that is not warranted")
+		"random family graphs (1..7 people, 0..3 families, distinct roles inside a family, a sibling pair shares at most one family) with exact D Mon Y dates between about 1600 and 1975 (a fifth of the documents in an early century, years with one to four digits): sibling gaps from {0,1,2,3,30,200,269,270,280,281,400,1000} days, children born -400/-1/0/+1 days or 15-35 years relative to a parent, deaths at -10 days .. 130 years incl. 99.9/100.1, marriages at 10/15.9/16.1/25/60/99.9/100.1/104 years, baptisms/burials around birth/death, 0-3 SEX lines, unparsable dates in RESI/ENGA events; the multiset of (warning kind, people, dates) computed from the facts must equal the projection of Document.Warnings(), again on a second call after the views and similarities of the document were read, and before and after reordering records and children; for a quarter of the documents 1..2 edits through the public API follow (a person deleted, replaced by another under the same pointer, added as a child, a birth date changed) and the report must then be that of the same text decoded from nothing; non-trivial = at least one warranted warning and at least one candidate of another kind that is not warranted")
 	s.Rapid(t, harness.Share(harness.Pick(80000, 2000000)), 200, func(rt *rapid.T) {
 		d := genDoc(rt)
 		fl, nexp, kinds := check(d)
